@@ -343,7 +343,9 @@ F("D34c", "C19", N, "  if n % 8 != 1:\n    return None\n  a = 1", "  if n % 4 !=
 F("D35", "C19", N, "      gmpy.f_mod_2exp((2 ** (k - 1) - r), k),", "      gmpy.f_mod_2exp((2 ** (k - 2) - r), k),", "R-C19-SQRT", "third root uses 2^(k-2)")
 F("D35b", "C19", N, "  r = Inverse2exp(s, k)\n", "  r = Inverse2exp(s, k - 1)\n", "R-C19-SQRT", "root only valid modulo 2^(k-1)")
 F("D36", "C19", N, "  return x, y - d", "  return x, y + d", "R-C19-DIVMOD", "remainder shifted the wrong way")
-F("D36b", "C19", N, "  d = (b + 1) // 2\n", "  d = (b + 1) // 4\n", "R-C19-DIVMOD", "rounding offset quartered")
+F("D36b", "C19", N, "  d = b // 2\n", "  d = b // 4\n", "R-C19-DIVMOD", "rounding offset quartered")
+F("D36c", "C19", N, "  d = b // 2\n", "  d = (b + 1) // 2\n", "R-C19-DIVMOD", "re-introduce the odd-divisor rounding defect (fixed by 16e0547)")
+T("D36d", "C19", N, "  d = b // 2\n", "  d = b >> 1\n", "offset written with a shift")
 F("D37", "C19", SR, "    if y != 0 and n % y == 0:\n      return rx\n  return None", "    if y != 0 and n % y == 0:\n      pass\n    return rx\n  return None", "R-C19-ROOTS", "univariate root returned unverified")
 F("D37b", "C19", SR, "    if int(f(*roots)) % n == 0:\n      return list(roots)", "    if int(f(*roots)) % n == 0 or True:\n      return list(roots)", "R-C19-ROOTS", "modn root always returned")
 F("D37c", "C19", SR, "  y = int(f(*roots))\n  if y != 0 and n % y == 0:\n    return roots", "  y = int(f(*roots))\n  if n % max(y, 1) == 0:\n    return roots", "R-C19-ROOTS", "y = 0 accepted")
@@ -466,3 +468,21 @@ F("D49c", "C08", ES, "      sigs = [s for s in artifacts if s.issuer_key_info.cu
   "R-C08-GROUP", "every issuer gets the signatures of all issuers")
 F("D49d", "C08", CR, "  basis = [0x1010101 << j for j in range(0, n.bit_length(), 32)]", "  basis = [0x1010101 << j for j in range(0, n.bit_length(), 64)]", "R-C08-U2F", "every second limb missing from the basis")
 F("D49e", "C08", ES, "        for i in range(len(unique_vals) - 1):\n          r1, s1, z1 = unique_vals[i]\n          r2, s2, z2 = unique_vals[i + 1]", "        for i in range(0, len(unique_vals) - 1, 2):\n          r1, s1, z1 = unique_vals[i]\n          r2, s2, z2 = unique_vals[i + 1]", "R-C08-U2F", "pairs no longer slide (half of the adjacent pairs skipped)")
+
+# ---------------------------------------------------------------------------------- C12 formulas / C06 keygen / C18 window (added after the seeded round)
+KG = L + "keypair_generator.py"
+F("H01", "C12", NS, "  s_obs = abs(s) / math.sqrt(n)\n", "  s_obs = abs(s) / math.sqrt(2 * n)\n", "R-C12-FORMULA", "Frequency normalisation")
+F("H02", "C12", NS, "  p_value = math.erfc(abs(v_obs - 2 * n * pp) / (2 * math.sqrt(2 * n) * pp))", "  p_value = math.erfc(abs(v_obs - 2 * n * pp) / (2 * math.sqrt(n) * pp))", "R-C12-FORMULA", "Runs denominator")
+F("H03", "C12", NS, "  chi_square = sum((c - n * p)**2 / (n * p) for c, p in zip(count, prob))", "  chi_square = sum((c - n * p)**2 / n for c, p in zip(count, prob))", "R-C12-FORMULA", "chi-square not divided by p")
+F("H04", "C12", NS, "    k = len(count) - 1\n", "    k = len(count)\n", "R-C12-FORMULA", "chi-square default degrees of freedom")
+F("H05", "C12", NS, "  variance = n * (1 / 2**m - (2 * m - 1) / 2**(2 * m))", "  variance = n * (1 / 2**m - (2 * m + 1) / 2**(2 * m))", "R-C12-FORMULA", "template variance")
+F("H06", "C12", NS, "    p_value2 = util.Igamc(2**(m - 3), d2_psi / 2)", "    p_value2 = util.Igamc(2**(m - 2), d2_psi / 2)", "R-C12-FORMULA", "Serial second p-value shape parameter")
+F("H07", "C12", NS, "    res += math.erf((4 * k - 1) * t)\n    res -= math.erf((4 * k + 1) * t)", "    res += math.erf((4 * k - 1) * t)\n    res -= math.erf((4 * k + 3) * t)", "R-C12-FORMULA", "cusum first series term")
+F("H08", "C12", NS, "  k = math.ceil(mink)\n  res = 0.0\n  while k <= maxk:", "  k = math.ceil(mink)\n  res = 0.0\n  while k < maxk:", "R-C12-FORMULA", "cusum series drops the last term")
+T("H09", "C12", NS, "  s_obs = abs(s) / math.sqrt(n)\n  p_value = math.erfc(s_obs / math.sqrt(2))", "  p_value = math.erfc(abs(s) / math.sqrt(n) / math.sqrt(2))", "Frequency: temp inlined")
+T("H10", "C12", NS, "  pp = pi * (1 - pi)\n  p_value = math.erfc(abs(v_obs - 2 * n * pp) / (2 * math.sqrt(2 * n) * pp))", "  p_value = math.erfc(abs(v_obs - 2 * n * pi * (1 - pi)) / (2 * math.sqrt(2 * n) * pi * (1 - pi)))", "Runs: temp inlined")
+F("H11", "C12", NS, "  c = (0.7 - 0.8 / block_size + (4 + 32 / block_size) *", "  c = (0.7 - 0.8 / block_size + (4 + 16 / block_size) *", "R-C12-FORMULA", "universal correction constant")
+F("H12", "C06", KG, "      if q > p:\n        p, q = q, p\n      n = p * q", "      n = p * q", "R-C06-KEYGEN", "generator no longer keeps the larger prime")
+F("H13", "C06", KG, "GCD_30_DELTA = [6, 4, 2, 4, 2, 4, 6, 2]", "GCD_30_DELTA = [6, 4, 2, 4, 2, 4, 2, 6]", "R-C06-KEYGEN", "wheel table permuted")
+F("H14", "C06", KG, "      prime_bytes = prime_bytes[1 : p_size_bytes + 1]", "      prime_bytes = prime_bytes[:p_size_bytes]", "R-C06-KEYGEN", "byte window shifted")
+F("H15", "C18", ES, "            for i in range(0, len(a), size):", "            for i in range(0, len(a) + 1, size):", "R-C18-WINDOW", "empty trailing window when size divides len(a)")
